@@ -17,10 +17,11 @@ Inductive case :=
 
 Definition Qmaxabs (l : list Q) : Q := fold_left (fun acc x => Qmax' acc (Qabs x)) l 1.
 
-(* entries compared relative to the largest entry of the matrix (translation entries are differences of
-   quantities of that size) *)
-Definition mat_close_scaled (m : mat4 Q) (o : list fl) : bool :=
-  let s := Qmaxabs (mlist m) in
+(* entries compared relative to the largest entry of the matrix and to the magnitude `mag` of the inputs that are
+   added up in the translation column (those entries are obtained by cancellation) *)
+Definition vabs1 (v : vec3 Q) : Q := Qabs (vx v) + Qabs (vy v) + Qabs (vz v).
+Definition mat_close_scaled (mag : Q) (m : mat4 Q) (o : list fl) : bool :=
+  let s := Qmax' mag (Qmaxabs (mlist m)) in
   all2 (fun a b => match b with Fin q => Qle_bool (Qabs (a - q)) (tol * s) | _ => false end) (mlist m) o.
 (* entries compared one by one, relative to their own size (no cancellation in these matrices) *)
 Definition entry_close (a : Q) (b : fl) : bool :=
@@ -29,9 +30,9 @@ Definition mat_close_entrywise (m : mat4 Q) (o : list fl) : bool := all2 entry_c
 
 Definition has_nan (o : list fl) : bool := existsb fl_is_nan o.
 
-Definition agree_opt (m : option (mat4 Q)) (o : obs) : bool :=
+Definition agree_opt (mag : Q) (m : option (mat4 Q)) (o : obs) : bool :=
   match m, o with
-  | Some a, Ok l => mat_close_scaled a l
+  | Some a, Ok l => mat_close_scaled mag a l
   | None, Ok l => has_nan l && Nat.eqb (length l) 16
   | _, Raise _ => false
   end.
@@ -41,9 +42,9 @@ Definition agree_res (m : result (mat4 Q)) (o : obs) : bool :=
   | Raise e, Raise e' => exn_eqb e e'
   | _, _ => false
   end.
-Definition agree_res_opt (m : result (option (mat4 Q))) (o : obs) : bool :=
+Definition agree_res_opt (mag : Q) (m : result (option (mat4 Q))) (o : obs) : bool :=
   match m, o with
-  | Ok a, Ok _ => agree_opt a o
+  | Ok a, Ok _ => agree_opt mag a o
   | Raise e, Raise e' => exn_eqb e e'
   | _, _ => false
   end.
@@ -51,7 +52,8 @@ Definition agree_res_opt (m : result (option (mat4 Q))) (o : obs) : bool :=
 Definition check_case (c : case) : bool :=
   match c with
   | CW2V p t u fwd inv =>
-      agree_opt (world_to_view QOps p t u false) fwd && agree_opt (world_to_view QOps p t u true) inv
+      let mag := vabs1 p in
+      agree_opt mag (world_to_view QOps p t u false) fwd && agree_opt mag (world_to_view QOps p t u true) inv
   | COrtho w h n f fwd inv =>
       agree_res (view_to_orthographic_projection QOps w h n f false) fwd &&
       agree_res (view_to_orthographic_projection QOps w h n f true) inv
@@ -59,6 +61,8 @@ Definition check_case (c : case) : bool :=
       agree_res (viewport_transform QOps xr yb xl yt false) fwd &&
       agree_res (viewport_transform QOps xr yb xl yt true) inv
   | CCanvas w h p t zoom fwd inv =>
-      agree_res_opt (world_to_canvas QOps w h p t zoom false) fwd &&
-      agree_res_opt (world_to_canvas QOps w h p t zoom true) inv
+      (* forward entries are sums of terms of size zoom*|position|, w, h; inverse entries of size |position|, w/zoom, h/zoom, far+near *)
+      agree_res_opt (Qabs zoom * vabs1 p + Qabs w + Qabs h) (world_to_canvas QOps w h p t zoom false) fwd &&
+      agree_res_opt (if Qeq_bool zoom 0 then 1 else vabs1 p + (Qabs w + Qabs h) / Qabs zoom + 2001)
+                    (world_to_canvas QOps w h p t zoom true) inv
   end.
